@@ -83,6 +83,9 @@ def fam_delivery():
         {"threads": {"app1": [["schedule", 1, 1], ["schedule", 1, 2], ["schedule", 2, 2], ["start"], ["await"], ["stop"],
                               ["join"]]},
          "emit": {"1": [1, 1, 2], "2": [1, 2, 2]}},
+        # runs of identical events: coalescing may only ever drop an event whose equal twin is still undelivered
+        {"threads": {"app1": [["schedule", 1, 1], ["start"], ["await"], ["stop"], ["join"]]},
+         "emit": {"1": [1, 1, 1, 2, 2, 1]}},
         # schedule while running from a second thread
         {"threads": {"app1": [["schedule", 1, 1], ["start"], ["await"], ["stop"], ["join"]],
                      "app2": [["schedule", 2, 2], ["add", 1, 2]]},
